@@ -1464,3 +1464,301 @@ pub fn check_c04(sc: &Scenario, rr: &RunResult) -> Vec<Violation> {
     }
     v
 }
+
+/// C06: framing. Family FRAME (fault-free): same values under every partition, nothing returned
+/// before its last byte was delivered.
+pub fn check_c06(sc: &Scenario, rr: &RunResult) -> Vec<Violation> {
+    let mut v = check_clean_run("C06", rr);
+    let dead = dead_clients(&rr.hist);
+    for m in walk_plain(sc, &rr.hist, &WalkOpts { strict_stream: false }) {
+        if m.missing && (dead.contains(&m.client) || rr.verdict != crate::exec::Verdict::Done) {
+            continue;
+        }
+        v.push(Violation::new(
+            "C06",
+            "C06.a",
+            format!("{}/{}", m.what, if m.missing { "no-return" } else if m.foreign { "foreign-content" } else { "wrong-value" }),
+            format!("client {} step {}: expected {} got {}", m.client, m.step, clip(&m.expected), clip(&m.actual)),
+        ));
+    }
+    if let Some(e) = rr.hist.iter().find(|e| matches!(&e.kind, EvKind::DriverExit { ok: false, .. })) {
+        v.push(Violation::new("C06", "C06.c", "driver-error-on-wellformed-stream", format!("{:?}", e.kind)));
+    }
+    // (b) no return before the delivery of the last byte of the message it carries
+    let ems = emission_ends(&rr.hist);
+    let deliver_seq = |end: usize| -> Option<u64> { rr.hist.iter().find_map(|e| if let EvKind::NetDeliver { upto } = &e.kind { if *upto >= end { Some(e.seq) } else { None } } else { None }) };
+    let rets = returns_by_step(&rr.hist);
+    for (c, cs) in sc.clients.iter().enumerate() {
+        let mut streams: BTreeMap<usize, Option<(StreamModel, String)>> = BTreeMap::new();
+        for (ix, step) in cs.steps.iter().enumerate() {
+            let Some((ret, _, _, rseq)) = rets.get(&(c, ix)) else { continue };
+            let label = match step {
+                Step::Op { token, op, .. } => match (op, ret) {
+                    (_, Ret::Err(_)) | (OpSpec::Abandon(_), _) | (OpSpec::Unbind, _) => None,
+                    (OpSpec::Search(_), _) => Some(format!("{token}:done")),
+                    _ => Some(format!("{token}:reply")),
+                },
+                Step::Open { token, slot, adapter, mods, .. } => {
+                    let m = sc.plan.by_token.get(token).and_then(|p| StreamModel::open(p, *adapter, mods.timeout_ms));
+                    streams.insert(*slot, m.map(|m| (m, token.clone())));
+                    None
+                }
+                Step::Next { slot, .. } => match streams.get_mut(slot) {
+                    Some(Some((m, tok))) if m.state == model::SState::Active && !m.would_block() => {
+                        let _ = m.next();
+                        match (m.last_consumed, ret) {
+                            (_, Ret::Err(_)) | (_, Ret::Skipped) => None,
+                            (Some(i), _) => {
+                                let n = match sc.plan.by_token.get(tok.as_str()) {
+                                    Some(ReplyPlan::Items { items, .. }) => items.len(),
+                                    _ => 0,
+                                };
+                                Some(if i >= n { format!("{tok}:done") } else { format!("{tok}:item{i}") })
+                            }
+                            _ => None,
+                        }
+                    }
+                    _ => None,
+                },
+                _ => None,
+            };
+            if let Some(l) = label {
+                if let Some((_, end)) = ems.get(&l) {
+                    match deliver_seq(*end) {
+                        Some(ds) if ds < *rseq => {}
+                        _ => v.push(Violation::new("C06", "C06.b", format!("{}/returned-before-last-byte", lifecycle(step)), format!("client {c} step {ix} returned the message {l} before its last byte (offset {end}) had been delivered"))),
+                    }
+                }
+            }
+        }
+    }
+    v
+}
+
+// ---------------------------------------------------------------------------------------------
+// C02: request PDUs and one-shot modifiers
+// ---------------------------------------------------------------------------------------------
+
+/// Walks every client with the modifier model and compares each request the server decoded
+/// with the request model built from the call arguments.
+pub fn check_c02(sc: &Scenario, rr: &RunResult) -> Vec<Violation> {
+    use crate::model::{req_ctrls_expect, req_expect, ModState, ReqExpect};
+    let mut v = check_clean_run("C02", rr);
+    if !v.is_empty() {
+        return v;
+    }
+    // requests by token, in arrival order
+    let mut recv: BTreeMap<String, Vec<(usize, i64, Vec<String>)>> = BTreeMap::new();
+    for e in &rr.hist {
+        if let EvKind::SrvRecv { arrival, id, token, strict, .. } = &e.kind {
+            recv.entry(token.clone()).or_default().push((*arrival, *id, strict.clone()));
+        }
+    }
+    for e in &rr.hist {
+        if let EvKind::SrvUndecodable { why, .. } = &e.kind {
+            v.push(Violation::new("C02", "C02.wellformed", "request-not-decodable", format!("the server could not decode what the client wrote: {why}")));
+        }
+    }
+    let rets = returns_by_step(&rr.hist);
+    let mut matched_arrivals: std::collections::BTreeSet<usize> = Default::default();
+    for (c, cs) in sc.clients.iter().enumerate() {
+        let mut ms = ModState::default();
+        let mut dropped = false;
+        let mut uncertain_mods = false;
+        for (ix, step) in cs.steps.iter().enumerate() {
+            let (token, op_kind_s, op_for_model, step_mods, adapter): (&String, &str, OpSpec, &crate::scenario::Mods, Option<crate::scenario::Adapter>) = match step {
+                Step::DropHandle => {
+                    dropped = true;
+                    continue;
+                }
+                Step::SetMods { mods } => {
+                    ms.set(mods);
+                    continue;
+                }
+                Step::Op { token, op, mods, .. } => (token, crate::client::op_kind(op), op.clone(), mods, None),
+                Step::Open { token, search, mods, adapter, .. } => (token, "search", OpSpec::Search(search.clone()), mods, Some(*adapter)),
+                _ => continue,
+            };
+            if dropped {
+                continue;
+            }
+            ms.set(step_mods);
+            let eff = ms.take();
+            if matches!(adapter, Some(crate::scenario::Adapter::Paged(_)) | Some(crate::scenario::Adapter::EntriesOnlyPaged(_)) | Some(crate::scenario::Adapter::PagedEntriesOnly(_))) {
+                continue; // paged searches rewrite controls: C16
+            }
+            let Some((ret, last_id, ..)) = rets.get(&(c, ix)) else { continue };
+            if **ret == Ret::Cancelled {
+                // a call dropped before or while it ran: whether it consumed its modifiers is not defined
+                uncertain_mods = true;
+                continue;
+            }
+            let skip_mods = std::mem::replace(&mut uncertain_mods, false);
+            let exp = req_expect(&op_for_model, eff.opts.as_ref(), |s| s.filter.clone());
+            // by token; requests without a token of their own (abandon, unbind, SASL bind) by the call's message ID
+            let by_id: Option<(usize, i64, Vec<String>)> = if *last_id != 0 {
+                rr.hist.iter().find_map(|e| match &e.kind {
+                    EvKind::SrvRecv { arrival, id, strict, .. } if *id == *last_id as i64 => Some((*arrival, *id, strict.clone())),
+                    _ => None,
+                })
+            } else {
+                None
+            };
+            let got = recv.get(token).and_then(|v| v.first()).or(by_id.as_ref());
+            match exp {
+                ReqExpect::Refused(class) => {
+                    let ok = match ret {
+                        Ret::Err(crate::world::ErrC::AddNoValues) => class == "AddNoValues",
+                        Ret::Err(crate::world::ErrC::FilterParsing) => class == "FilterParsing",
+                        _ => false,
+                    };
+                    if !ok {
+                        v.push(Violation::new("C02", "C02.refusal", format!("{op_kind_s}/not-refused-as-{class}"), format!("client {c} step {ix}: expected refusal {class}, got {}", clip(&format!("{:?}", ret)))));
+                    }
+                }
+                ReqExpect::Sent(mut want) => {
+                    let Some((arrival, id, strict)) = got else {
+                        v.push(Violation::new("C02", "C02.sent", format!("{op_kind_s}/request-never-arrived"), format!("client {c} step {ix} ({token}): no request with this token reached the server; call returned {}", clip(&format!("{:?}", ret)))));
+                        continue;
+                    };
+                    matched_arrivals.insert(*arrival);
+                    let req = &rr.requests[*arrival];
+                    for s in strict {
+                        v.push(Violation::new("C02", "C02.wellformed", format!("{op_kind_s}/{}", trunc(s, 50)), format!("client {c} step {ix}: strict decoder: {s}")));
+                    }
+                    if let (crate::msg::ReqOp::Abandon { id: want_id }, OpSpec::Abandon(r)) = (&mut want, &op_for_model) {
+                        *want_id = match r {
+                            crate::scenario::IdRef::Raw(x) => *x as i64,
+                            crate::scenario::IdRef::Token(t) => recv.get(t).and_then(|v| v.first()).map(|x| x.1).unwrap_or(-1),
+                        };
+                    }
+                    if skip_mods {
+                        // compare the operation without the parts modifiers can touch
+                        if let (crate::msg::ReqOp::Search { deref, size, time, types_only, .. }, crate::msg::ReqOp::Search { deref: d2, size: s2, time: t2, types_only: y2, .. }) = (&req.op, &mut want) {
+                            *d2 = *deref;
+                            *s2 = *size;
+                            *t2 = *time;
+                            *y2 = *types_only;
+                        }
+                    }
+                    if req.op != want {
+                        let what = diff_req(&req.op, &want);
+                        v.push(Violation::new("C02", "C02.op", format!("{op_kind_s}/{what}"), format!("client {c} step {ix}: wire {} model {}", clip(&format!("{:?}", req.op)), clip(&format!("{:?}", want)))));
+                    }
+                    let want_c = req_ctrls_expect(&eff.controls);
+                    if req.ctrls != want_c && !skip_mods {
+                        let leak = want_c.is_none() && req.ctrls.is_some();
+                        v.push(Violation::new(
+                            "C02",
+                            if leak { "C02.modifiers" } else { "C02.controls" },
+                            format!("{op_kind_s}/{}", if leak { "controls-from-an-earlier-call" } else if req.ctrls.is_none() { "controls-lost" } else { "controls-differ" }),
+                            format!("client {c} step {ix}: wire {} model {}", clip(&format!("{:?}", req.ctrls)), clip(&format!("{:?}", want_c))),
+                        ));
+                    }
+                    if *last_id != 0 && *id != *last_id as i64 {
+                        v.push(Violation::new("C02", "C02.msgid", format!("{op_kind_s}/last_id-differs-from-wire-id"), format!("client {c} step {ix}: wire ID {id}, last_id() {last_id}")));
+                    }
+                    // timeout part of the modifier model: without an effective timeout the call may not time out
+                    if eff.timeout_ms.is_none() && !skip_mods && matches!(ret, Ret::Err(crate::world::ErrC::Timeout)) {
+                        v.push(Violation::new("C02", "C02.modifiers", format!("{op_kind_s}/timeout-from-an-earlier-call"), format!("client {c} step {ix} timed out although no timeout was set for it")));
+                    }
+                    if let (Some(_), Some(ReplyPlan::Silent)) = (eff.timeout_ms, sc.plan.by_token.get(token)) {
+                        if !matches!(ret, Ret::Err(crate::world::ErrC::Timeout)) {
+                            v.push(Violation::new("C02", "C02.modifiers", format!("{op_kind_s}/timeout-lost"), format!("client {c} step {ix}: a timeout was set and the server stayed silent, but the call returned {}", clip(&format!("{:?}", ret)))));
+                        }
+                    }
+                }
+            }
+        }
+    }
+    v
+}
+
+fn diff_req(a: &crate::msg::ReqOp, b: &crate::msg::ReqOp) -> String {
+    use crate::msg::ReqOp::*;
+    match (a, b) {
+        (Search { base: b1, scope: s1, deref: d1, size: z1, time: t1, types_only: y1, filter: f1, attrs: a1 }, Search { base: b2, scope: s2, deref: d2, size: z2, time: t2, types_only: y2, filter: f2, attrs: a2 }) => {
+            let mut parts = vec![];
+            if b1 != b2 {
+                parts.push("base");
+            }
+            if s1 != s2 {
+                parts.push("scope");
+            }
+            if d1 != d2 {
+                parts.push("deref");
+            }
+            if z1 != z2 {
+                parts.push("sizelimit");
+            }
+            if t1 != t2 {
+                parts.push("timelimit");
+            }
+            if y1 != y2 {
+                parts.push("typesonly");
+            }
+            if f1 != f2 {
+                parts.push("filter");
+            }
+            if a1 != a2 {
+                parts.push("attrs");
+            }
+            if parts.iter().all(|p| matches!(*p, "deref" | "sizelimit" | "timelimit" | "typesonly")) {
+                "search-options-differ".to_string()
+            } else {
+                format!("search-differs-in-{}", parts.iter().filter(|p| !matches!(**p, "deref" | "sizelimit" | "timelimit" | "typesonly")).cloned().collect::<Vec<_>>().join("+"))
+            }
+        }
+        _ if a.kind() != b.kind() => format!("wrong-operation-{}-for-{}", a.kind(), b.kind()),
+        _ => "fields-differ".to_string(),
+    }
+}
+
+// ---------------------------------------------------------------------------------------------
+// C03: results and helper classification
+// ---------------------------------------------------------------------------------------------
+
+pub fn check_c03(sc: &Scenario, rr: &RunResult) -> Vec<Violation> {
+    let mut v = check_clean_run("C03", rr);
+    if !v.is_empty() {
+        return v;
+    }
+    // values: timing-aware walk (SEQ has timeouts with silent servers only)
+    for m in walk_timed(sc, rr) {
+        if m.kind == "wrong-time" {
+            continue;
+        }
+        v.push(Violation::new("C03", "C03.value", format!("{}/{}", m.what, m.kind), format!("client {} step {}: {}", m.client, m.step, m.detail)));
+    }
+    // helper table
+    for e in &rr.hist {
+        if let EvKind::Helpers { client, step, rc, success, non_error, equal } = &e.kind {
+            let is_cmp = equal.is_some();
+            let want_non_error = if is_cmp { *rc == 5 || *rc == 6 || *rc == 10 } else { *rc == 0 || *rc == 10 };
+            if !is_cmp && *success != (*rc == 0) {
+                v.push(Violation::new("C03", "C03.helpers", "success()", format!("client {client} step {step}: rc={rc} success()={success}")));
+            }
+            if *non_error != want_non_error {
+                v.push(Violation::new("C03", "C03.helpers", if is_cmp { "compare.non_error()" } else { "non_error()" }, format!("client {client} step {step}: rc={rc} non_error()={non_error}")));
+            }
+            if let Some(eq) = equal {
+                let want = match rc {
+                    5 => Some(false),
+                    6 => Some(true),
+                    _ => None,
+                };
+                if *eq != want {
+                    v.push(Violation::new("C03", "C03.helpers", "equal()", format!("client {client} step {step}: rc={rc} equal()={:?}", eq)));
+                }
+            }
+        }
+    }
+    v
+}
+
+pub fn check_c03_mux(sc: &Scenario, rr: &RunResult) -> Vec<Violation> {
+    check_c01(sc, rr)
+        .into_iter()
+        .map(|v| Violation::new("C03", &v.clause.replace("C01", "C03.mux"), v.signature, v.detail))
+        .collect()
+}
